@@ -6,7 +6,12 @@ from . import trace_contracts as tcx
 TARGETS = [tcx.H + "line_numbers", tcx.H + "code_snippet"]
 LEMMAS = []
 try:
-    from .C20_bounded import bounded, BOUNDED_RULE  # noqa: F401
+    from .C20_bounded import bounded as _bounded_main, BOUNDED_RULE  # noqa: F401
+    from .C20_extra import bounded_extra as _bounded_extra
+
+    def bounded(ctx):
+        _bounded_extra(ctx)
+        _bounded_main(ctx)
     try:
         from .C20_bounded import replay_bounded  # noqa: F401
     except ImportError:
